@@ -1,0 +1,394 @@
+//! Instrumented drop-in for the parts of `std` that `util/thread/pool.rs`
+//! (and the `Barrier` of `benchmark/mod.rs`) use.
+//!
+//! Every instrumented operation is performed and logged under one global
+//! lock, so the log is a linearisation of the real execution. Blocking
+//! operations (rendezvous channel, park/unpark) are implemented here so that
+//! the moment they take effect is logged atomically as well. Seeded delays
+//! around every operation widen race windows; `park` can return spuriously.
+//!
+//! What is exercised through this module is divan's *use* of the primitives,
+//! not the primitives themselves.
+
+pub use ::std::*;
+
+use ::std::sync::{Condvar as RCondvar, Mutex as RMutex};
+
+#[derive(Clone, Debug, PartialEq, Eq)]
+pub enum Ev {
+    /// `AtomicUsize::new(v)`: a task block is initialised.
+    New(usize),
+    /// value, ordering code
+    Load(usize, u8),
+    /// old value, ordering code
+    FetchSub(usize, u8),
+    /// A worker received a task (rendezvous completed).
+    Recv,
+    /// A worker is about to block in `recv`.
+    RecvEnter,
+    /// `recv` returned `Err`: all senders are gone.
+    RecvDisconnected,
+    HandleClone,
+    Unpark,
+    ParkReturn { spurious: bool },
+    Spawn(usize),
+    /// `Barrier::wait` entered / left (generation index).
+    BarrierEnter,
+    BarrierLeave,
+    /// Harness events.
+    User(u32, u32),
+}
+
+#[derive(Clone, Debug)]
+pub struct Logged {
+    pub thread: usize,
+    pub ev: Ev,
+}
+
+pub static LOG: RMutex<Vec<Logged>> = RMutex::new(Vec::new());
+static SEED: ::std::sync::atomic::AtomicU64 =
+    ::std::sync::atomic::AtomicU64::new(0x9E37_79B9_7F4A_7C15);
+/// Percentage of `park` calls that return spuriously (0 = never).
+pub static SPURIOUS_PERCENT: ::std::sync::atomic::AtomicU64 =
+    ::std::sync::atomic::AtomicU64::new(0);
+/// Whether operations are logged and perturbed at all.
+pub static ACTIVE: ::std::sync::atomic::AtomicBool =
+    ::std::sync::atomic::AtomicBool::new(false);
+
+thread_local! {
+    static TID: ::std::cell::Cell<usize> = const { ::std::cell::Cell::new(0) };
+}
+
+/// 0 for the calling thread, `N` for pool thread `divan-N`.
+pub fn tid() -> usize {
+    TID.try_with(|t| t.get()).unwrap_or(0)
+}
+
+pub fn set_seed(s: u64) {
+    SEED.store(s | 1, ::std::sync::atomic::Ordering::SeqCst);
+}
+
+fn rnd() -> u64 {
+    let mut x = SEED.load(::std::sync::atomic::Ordering::Relaxed);
+    x ^= x << 13;
+    x ^= x >> 7;
+    x ^= x << 17;
+    SEED.store(x, ::std::sync::atomic::Ordering::Relaxed);
+    x
+}
+
+fn active() -> bool {
+    ACTIVE.load(::std::sync::atomic::Ordering::Relaxed)
+}
+
+/// Perturbation: widen race windows around every instrumented operation.
+fn jitter() {
+    if !active() {
+        return;
+    }
+    match rnd() % 8 {
+        0 => ::std::thread::sleep(::std::time::Duration::from_micros(
+            rnd() % 200,
+        )),
+        1 | 2 => ::std::thread::yield_now(),
+        _ => {}
+    }
+}
+
+/// Performs `f` and logs its event atomically.
+pub fn logged<R>(f: impl FnOnce() -> (R, Ev)) -> R {
+    if !active() {
+        return f().0;
+    }
+    jitter();
+    let mut log = LOG.lock().unwrap_or_else(|e| e.into_inner());
+    let (r, ev) = f();
+    log.push(Logged { thread: tid(), ev });
+    drop(log);
+    jitter();
+    r
+}
+
+pub fn user_event(a: u32, b: u32) {
+    logged(|| ((), Ev::User(a, b)))
+}
+
+pub fn take_log() -> Vec<Logged> {
+    ::std::mem::take(&mut *LOG.lock().unwrap_or_else(|e| e.into_inner()))
+}
+
+fn ord_code(o: ::std::sync::atomic::Ordering) -> u8 {
+    use ::std::sync::atomic::Ordering::*;
+    match o {
+        Relaxed => 0,
+        Release => 1,
+        Acquire => 2,
+        AcqRel => 3,
+        SeqCst => 4,
+        _ => 9,
+    }
+}
+
+pub mod sync {
+    pub use ::std::sync::*;
+
+    use super::{logged, Ev};
+
+    pub mod atomic {
+        pub use ::std::sync::atomic::*;
+
+        use super::super::{logged, ord_code, Ev};
+
+        pub struct AtomicUsize(::std::sync::atomic::AtomicUsize);
+
+        impl AtomicUsize {
+            pub fn new(v: usize) -> Self {
+                logged(|| {
+                    (Self(::std::sync::atomic::AtomicUsize::new(v)), Ev::New(v))
+                })
+            }
+
+            pub fn load(&self, o: Ordering) -> usize {
+                logged(|| {
+                    let v = self.0.load(o);
+                    (v, Ev::Load(v, ord_code(o)))
+                })
+            }
+
+            pub fn fetch_sub(&self, d: usize, o: Ordering) -> usize {
+                logged(|| {
+                    let v = self.0.fetch_sub(d, o);
+                    (v, Ev::FetchSub(v, ord_code(o)))
+                })
+            }
+        }
+    }
+
+    /// Rendezvous channel (capacity 0 only): the receiver takes the value and
+    /// logs `Recv` atomically; the sender returns only after that.
+    pub mod mpsc {
+        pub use ::std::sync::mpsc::{RecvError, SendError};
+
+        use ::std::sync::Arc;
+
+        use super::super::{logged, Ev, RCondvar, RMutex};
+
+        struct Chan<T> {
+            /// value, taken acknowledgement, sender alive
+            slot: RMutex<(Option<T>, bool, bool)>,
+            cv: RCondvar,
+        }
+
+        pub struct SyncSender<T>(Arc<Chan<T>>);
+        pub struct Receiver<T>(Arc<Chan<T>>);
+
+        pub fn sync_channel<T>(cap: usize) -> (SyncSender<T>, Receiver<T>) {
+            assert_eq!(cap, 0);
+            let c = Arc::new(Chan {
+                slot: RMutex::new((None, false, true)),
+                cv: RCondvar::new(),
+            });
+            (SyncSender(c.clone()), Receiver(c))
+        }
+
+        impl<T> SyncSender<T> {
+            pub fn send(&self, t: T) -> Result<(), SendError<T>> {
+                let mut g = self.0.slot.lock().unwrap();
+                g.0 = Some(t);
+                g.1 = false;
+                self.0.cv.notify_all();
+                while !g.1 {
+                    g = self.0.cv.wait(g).unwrap();
+                }
+                Ok(())
+            }
+        }
+
+        impl<T> Drop for SyncSender<T> {
+            fn drop(&mut self) {
+                let mut g = self.0.slot.lock().unwrap();
+                g.2 = false;
+                self.0.cv.notify_all();
+            }
+        }
+
+        impl<T> Receiver<T> {
+            pub fn recv(&self) -> Result<T, RecvError> {
+                logged(|| ((), Ev::RecvEnter));
+                let mut g = self.0.slot.lock().unwrap();
+                loop {
+                    if g.0.is_some() {
+                        // Take + log atomically, then release the sender.
+                        let v = logged(|| (g.0.take().unwrap(), Ev::Recv));
+                        g.1 = true;
+                        self.0.cv.notify_all();
+                        return Ok(v);
+                    }
+                    if !g.2 {
+                        drop(g);
+                        logged(|| ((), Ev::RecvDisconnected));
+                        return Err(RecvError);
+                    }
+                    g = self.0.cv.wait(g).unwrap();
+                }
+            }
+        }
+    }
+
+    pub struct Mutex<T>(::std::sync::Mutex<T>);
+
+    impl<T> Mutex<T> {
+        pub const fn new(t: T) -> Self {
+            Self(::std::sync::Mutex::new(t))
+        }
+
+        pub fn lock(&self) -> LockResult<MutexGuard<'_, T>> {
+            self.0.lock()
+        }
+    }
+
+    /// `Barrier` that logs entering and leaving `wait`.
+    pub struct Barrier(::std::sync::Barrier);
+
+    impl Barrier {
+        pub fn new(n: usize) -> Self {
+            Self(::std::sync::Barrier::new(n))
+        }
+
+        pub fn wait(&self) -> BarrierWaitResult {
+            logged(|| ((), Ev::BarrierEnter));
+            let r = self.0.wait();
+            logged(|| ((), Ev::BarrierLeave));
+            r
+        }
+    }
+}
+
+pub mod thread {
+    pub use ::std::thread::*;
+
+    use ::std::sync::Arc;
+
+    use super::{logged, rnd, Ev, RCondvar, RMutex, SPURIOUS_PERCENT, TID};
+
+    struct Parker {
+        token: RMutex<bool>,
+        cv: RCondvar,
+    }
+
+    thread_local! {
+        static PARKER: Arc<Parker> = Arc::new(Parker {
+            token: RMutex::new(false),
+            cv: RCondvar::new(),
+        });
+    }
+
+    pub struct Thread(Arc<Parker>);
+
+    impl Clone for Thread {
+        fn clone(&self) -> Self {
+            logged(|| (Thread(self.0.clone()), Ev::HandleClone))
+        }
+    }
+
+    impl Thread {
+        pub fn unpark(&self) {
+            let mut t = self.0.token.lock().unwrap();
+            logged(|| {
+                *t = true;
+                ((), Ev::Unpark)
+            });
+            self.0.cv.notify_all();
+        }
+    }
+
+    pub fn current() -> Thread {
+        PARKER.with(|p| Thread(p.clone()))
+    }
+
+    /// Whether the calling thread currently holds a wake-up token.
+    pub fn token_state() -> bool {
+        PARKER.with(|p| *p.token.lock().unwrap())
+    }
+
+    pub fn park() {
+        PARKER.with(|p| {
+            // Injected spurious wake-up.
+            let pct = SPURIOUS_PERCENT.load(::std::sync::atomic::Ordering::Relaxed);
+            if pct > 0 && rnd() % 100 < pct {
+                logged(|| ((), Ev::ParkReturn { spurious: true }));
+                return;
+            }
+            let mut t = p.token.lock().unwrap();
+            while !*t {
+                t = p.cv.wait(t).unwrap();
+            }
+            logged(|| {
+                *t = false;
+                ((), Ev::ParkReturn { spurious: false })
+            });
+        })
+    }
+
+    pub struct Builder {
+        name: Option<String>,
+    }
+
+    impl Builder {
+        #[allow(clippy::new_without_default)]
+        pub fn new() -> Self {
+            Self { name: None }
+        }
+
+        pub fn name(mut self, n: String) -> Self {
+            self.name = Some(n);
+            self
+        }
+
+        pub fn spawn<F, T>(self, f: F) -> ::std::io::Result<JoinHandle<T>>
+        where
+            F: FnOnce() -> T + Send + 'static,
+            T: Send + 'static,
+        {
+            let name = self.name.unwrap_or_default();
+            let idx: usize = name
+                .strip_prefix("divan-")
+                .and_then(|s| s.parse().ok())
+                .unwrap_or(0);
+            logged(|| ((), Ev::Spawn(idx)));
+            ::std::thread::Builder::new().name(name).spawn(move || {
+                TID.with(|t| t.set(idx));
+                f()
+            })
+        }
+    }
+}
+
+/// The crate-private thread pool, for the pool lab.
+pub struct Pool(crate::util::thread::ThreadPool);
+
+impl Pool {
+    #[allow(clippy::new_without_default)]
+    pub fn new() -> Self {
+        Self(crate::util::thread::ThreadPool::new())
+    }
+
+    pub fn par_extend<T, F>(
+        &self,
+        vec: &mut Vec<Option<T>>,
+        aux_threads: usize,
+        task: F,
+    ) where
+        F: Sync + Fn(usize) -> T,
+        T: Sync + Send,
+    {
+        self.0.par_extend(vec, aux_threads, task)
+    }
+
+    pub fn broadcast<F>(&self, aux_threads: usize, task: F)
+    where
+        F: Sync + Fn(usize),
+    {
+        self.0.broadcast(aux_threads, task)
+    }
+}
